@@ -24,7 +24,43 @@
 -/
 import PonyVerif.Lemmas.DbSession
 namespace PonyVerif.Props.C18
-open PonyVerif.Model.DbSession
+open PonyVerif.Model.DbSession PonyVerif.Gen
+
+/-! ### bridges to the source: the pieces regenerated from pony/orm/core.py, pony/flask/__init__.py and
+pony/orm/integration/bottle_plugin.py on every run (Gen/DbSessionGen.lean) compute, at the places where the model uses them,
+exactly what every theorem below relies on.  A change of the source at one of these places regenerates a different
+definition and these (and the dependent) theorems stop checking. -/
+
+/-- `_commit_or_rollback`: `can_commit` is True without an exception, otherwise what `allowed_exceptions` (list or callable) says -/
+theorem C18_bridge_can_commit (o : Opts) (exc : Option Exc) :
+    allowedDecision o exc = (match exc with | none => .yes | some e => o.allowed e) := allowedDecision_eq o exc
+
+/-- the `except:` clause of the retry loop: `do_retry` is True for `should_retry`, otherwise what `retry_exceptions` says -/
+theorem C18_bridge_do_retry (env : Env) (o : Opts) (e : Exc) :
+    doRetry env o e = if env.shouldRetry e then .yes else o.retryable e := doRetry_eq env o e
+
+/-- `for i in range(db_session.retry+1)`, `finally: db_session.__exit__(exc_type, exc, tb)`, `rollback()` on the retry
+    path, `commit()` after the body -/
+theorem C18_bridge_loop (retry : Nat) (e : Exc) :
+    DbSessionGen.loopFuel retry = retry + 1 ∧ loopExc e = some e ∧ DbSessionGen.retryPathRollsBack = true ∧
+    DbSessionGen.commitAfterBody = true := ⟨rfl, loopExc_eq e, rfl, rfl⟩
+
+/-- `_enter` adds 1, `__exit__` subtracts 1 and calls `_commit_or_rollback(exc_type, exc, tb)` exactly when the counter
+    is back to 0; `commit()` / `rollback()` are the first actions of the two branches; the session is cleared -/
+theorem C18_bridge_enter_exit (c : Int) :
+    DbSessionGen.counterAfterEnter c = c + 1 ∧ DbSessionGen.counterAfterExit c = c - 1 ∧
+    (DbSessionGen.exitIsOutermost c = true ↔ c = 0) ∧ DbSessionGen.exitPassesExc = true ∧
+    DbSessionGen.commitBranchCommits = true ∧ DbSessionGen.elseBranchRollsBack = true ∧ DbSessionGen.clearsSession = true := by
+  refine ⟨rfl, rfl, ?_, rfl, rfl, rfl, rfl⟩
+  simp [DbSessionGen.exitIsOutermost]
+
+/-- the generator wrapper sets the counter to 1 while the generator runs and to 0 afterwards -/
+theorem C18_bridge_generator : DbSessionGen.genCounterInside = 1 ∧ DbSessionGen.genCounterAfter = 0 := ⟨rfl, rfl⟩
+
+/-- Flask `_exit_session` hands the exception type to `__exit__`; Bottle allows HTTPResponse that is not HTTPError -/
+theorem C18_bridge_glue (isResp isErr : Bool) :
+    DbSessionGen.flaskExitPassesType = true ∧ DbSessionGen.isAllowedException isResp isErr = (isResp && !isErr) :=
+  ⟨rfl, rfl⟩
 
 /-! ### nested sessions: only the outermost exit commits or rolls back -/
 
@@ -238,26 +274,26 @@ theorem C18_flask (env : Env) (view : Prog) (s : St) (hc : Clean s) :
     does nothing -/
 theorem C18_flask_unhooked (env : Env) (view : Prog) (s : St) :
     exec env (.flask false view) s = exec env view s := by
-  simp only [exec, flaskRequest, Bool.false_eq_true, if_false, flaskExit]
+  simp only [exec, flaskRequest, Bool.false_eq_true, if_false, flaskExit_eq]
 
 /-- Bottle: `PonyPlugin.apply` runs the callback exactly once; its writes are committed iff the commit goes through and
-    the callback returned or raised a non-error HTTPResponse (`isRedirect`) that is not retryable; otherwise nothing is
-    committed. -/
-theorem C18_bottle (env : Env) (isRedirect : Exc → Bool) (callback : Nat → Prog) (s : St) (hc : Clean s) :
-    let r := decorated env (bottleOpts env isRedirect) (fun i => exec env (callback i)) s
+    the callback returned or raised an HTTPResponse that is not an HTTPError (the expression of `is_allowed_exception`,
+    regenerated from the source) and is not retryable; otherwise nothing is committed. -/
+theorem C18_bottle (env : Env) (isResp isErr : Exc → Bool) (callback : Nat → Prog) (s : St) (hc : Clean s) :
+    let r := decorated env (bottleOpts env isResp isErr) (fun i => exec env (callback i)) s
     Clean r.st ∧
     ∃ a, r.log = [a] ∧
       r.st.committed = s.committed ++
         (if commitOK env s.ncommit a.writes &&
             (match a.bodyOut with
              | .ret => true
-             | .raise e => isRedirect e && !(env.shouldRetry e) && !(env.isTx e))
+             | .raise e => (isResp e && !isErr e) && !(env.shouldRetry e) && !(env.isTx e))
          then a.writes else []) := by
   intro r
-  obtain ⟨h1, a, h2, h3, _⟩ := C18_decorator_commit_iff env (bottleOpts env isRedirect) callback s hc
-  have hb := C18_retry_bound env (bottleOpts env isRedirect) callback s hc
+  obtain ⟨h1, a, h2, h3, _⟩ := C18_decorator_commit_iff env (bottleOpts env isResp isErr) callback s hc
+  have hb := C18_retry_bound env (bottleOpts env isResp isErr) callback s hc
   have hlen : r.log.length = 1 := by
-    have h0 : (bottleOpts env isRedirect).retry = 0 := rfl
+    have h0 : (bottleOpts env isResp isErr).retry = 0 := rfl
     rw [h0] at hb
     exact Nat.le_antisymm hb.2 hb.1
   have hlog : r.log = [a] := by
@@ -271,43 +307,43 @@ theorem C18_bottle (env : Env) (isRedirect : Exc → Bool) (callback : Nat → P
         simp at h2'
         rw [h2']
       | cons y ys => rw [hl] at hlen; simp at hlen
-  have hstart := C18_attempts_start_from_committed env (bottleOpts env isRedirect) callback s hc a
+  have hstart := C18_attempts_start_from_committed env (bottleOpts env isResp isErr) callback s hc a
     (by show a ∈ r.log; rw [hlog]; simp)
-  have hf := C18_log_faithful env (bottleOpts env isRedirect) callback s hc 0 (by show 0 < r.log.length; omega)
-  have ha0 : (decorated env (bottleOpts env isRedirect) (fun i => exec env (callback i)) s).log[0]'(by show 0 < r.log.length; omega) = a := by
+  have hf := C18_log_faithful env (bottleOpts env isResp isErr) callback s hc 0 (by show 0 < r.log.length; omega)
+  have ha0 : (decorated env (bottleOpts env isResp isErr) (fun i => exec env (callback i)) s).log[0]'(by show 0 < r.log.length; omega) = a := by
     have : r.log[0]'(by omega) = a := by simp [hlog]
     exact this
   rw [ha0] at hf
   have hn : a.start.ncommit = s.ncommit := by
     have h := hf.entered
     -- the start state is `entered o s` up to nothing: ncommit is untouched by `_enter`
-    have hch := C18_decorator_chain env (bottleOpts env isRedirect) callback s hc
-    have hr : r = loop env (bottleOpts env isRedirect) (fun i => exec env (callback i)) 1 0 none s :=
+    have hch := C18_decorator_chain env (bottleOpts env isResp isErr) callback s hc
+    have hr : r = loop env (bottleOpts env isResp isErr) (fun i => exec env (callback i)) 1 0 none s :=
       decorated_top env _ _ s hc
     have hl2 : r.log = [a] := hlog
     rw [hr, loop_unfold env _ _ 0 0 none s hc] at hl2
-    rcases ht : attempt env (bottleOpts env isRedirect) (fun i => exec env (callback i)) 0 (entered (bottleOpts env isRedirect) s) with ⟨s2, ao, a'⟩
+    rcases ht : attempt env (bottleOpts env isResp isErr) (fun i => exec env (callback i)) 0 (entered (bottleOpts env isResp isErr) s) with ⟨s2, ao, a'⟩
     rw [ht] at hl2
     have ha' : a' = a := by
       cases ao <;> simpa [loop] using hl2
-    rcases hb2 : exec env (callback 0) (entered (bottleOpts env isRedirect) s) with ⟨bs, bo⟩
-    have hsp := (attempt_spec env (bottleOpts env isRedirect) (fun i => exec env (callback i)) 0 _
+    rcases hb2 : exec env (callback 0) (entered (bottleOpts env isResp isErr) s) with ⟨bs, bo⟩
+    have hsp := (attempt_spec env (bottleOpts env isResp isErr) (fun i => exec env (callback i)) 0 _
       (entered_Entered _ s) (exec_inner env (callback 0)) bs bo hb2).1
     rw [ht] at hsp
     simp only at hsp
     rw [← ha', hsp]
     rfl
   refine ⟨h1, a, hlog, ?_⟩
-  show (decorated env (bottleOpts env isRedirect) (fun i => exec env (callback i)) s).st.committed = _
+  show (decorated env (bottleOpts env isResp isErr) (fun i => exec env (callback i)) s).st.committed = _
   rw [h3]
   congr 1
   simp only [attCommits, hn]
   cases a.bodyOut with
   | ret => rfl
   | raise e =>
-    simp only [doRetry, bottleOpts]
+    simp only [doRetry_eq, bottleOpts, isAllowedException_eq]
     by_cases hs : env.shouldRetry e = true <;> by_cases ht : env.isTx e = true <;>
-      by_cases hrd : isRedirect e = true <;> simp [hs, ht, hrd]
+      by_cases hrd : isResp e = true <;> by_cases hre : isErr e = true <;> simp [hs, ht, hrd, hre]
 
 /-! ### generator functions -/
 
